@@ -315,7 +315,7 @@ func (w *World) dpObs(ev map[string]interface{}) {
 	if w.P4 == nil {
 		t := w.Bess.Snapshot()
 		ev["dp"] = w.dpJSON()
-		ev["cmds"] = t.Cmds
+		ev["cmds"] = t.Writes
 		ev["errs"] = t.Errs
 
 		return
@@ -333,6 +333,9 @@ func (w *World) dpObs(ev map[string]interface{}) {
 	w.p4Seen = n
 	ev["writes"] = ws
 }
+
+// DpIdle waits until the datapath server has received nothing for `quiet` (at most `max`).
+func (w *World) DpIdle(quiet, max time.Duration) { w.dpIdle(quiet, max) }
 
 func (w *World) dpIdle(quiet, max time.Duration) {
 	if w.P4 != nil {
